@@ -87,7 +87,10 @@ type c15Harness struct {
 }
 
 func (h *c15Harness) Reset(init map[string]any) error {
-	timeout := verifkit.Int(init, "timeout")
+	// the specification prints its Timeout constant (in ticks) once; one tick
+	// of the model is PeerEntryTimeout/Timeout of fake time
+	params, _ := init["params"].(map[string]any)
+	timeout := verifkit.Int(params, "timeout")
 	if timeout <= 0 {
 		return fmt.Errorf("initial state carries no timeout constant: %v", init)
 	}
